@@ -170,6 +170,9 @@ func (w *World) VerifyFunc(fi *FuncInfo, c *Contract, opts VerifyOpts) (res *Uni
 		}
 		return true
 	})
+	if opts.Closure == 0 {
+		ex.remapLoopOrdinals(body)
+	}
 	defer func() {
 		if r := recover(); r != nil {
 			if u, ok := r.(unsupported); ok {
@@ -543,7 +546,7 @@ func (ex *Exec) discharge(opts VerifyOpts) []OblResult {
 					return
 				}
 				weakRes = &wr
-				if wr.Status == "sat" && (o.Kind == "cover" || o.Kind == "canary" || opts.ExpectFail != nil && opts.ExpectFail(r.Name)) {
+				if wr.Status == "sat" && (o.Kind == "cover" || o.Kind == "canary") {
 					r.Status = "refuted-weak"
 					r.Backend = wr.Solver + " (model of the quantifier-free part)"
 					r.Model = trimModel(wr.Model)
